@@ -44,3 +44,10 @@ CHECKS["C07"] = {
         _sub("TestC07_SQL", 1500, 60000, sq=10, st=8),
     ],
 }
+
+CHECKS["C08"] = {
+    "level": "exploration",
+    "subs": [
+        _sub("TestC08_Fidelity", 2500, 100000, sq=16, st=16),
+    ],
+}
